@@ -252,7 +252,9 @@ def check_problem(rec, comps, nc, rng, n_random=200, with_optimize=False, config
                             kind = 'beaten/other-segment'
                         else:
                             kind = 'beaten'
-                        out.append((f'C08/d/fit_interpolate/{method}/{kind}', 'another mixture of two adjacent RDMs scores higher',
+                        # the sign-change class is a property of the measure family (centred or not), not of the whitening
+                        mkey = method.replace('_cov', '') if kind.endswith('on-segment') else method
+                        out.append((f'C08/d/fit_interpolate/{mkey}/{kind}', 'another mixture of two adjacent RDMs scores higher',
                                     dict(case, theta=th.tolist(), score=s_fit, competitor=T[j].tolist(), competitor_score=float(s_c[j]))))
             except Exception as ex_:
                 out.append((f'C08/raises/fit_interpolate/{method}/{type(ex_).__name__}', f'{type(ex_).__name__}: {ex_}', case))
